@@ -666,14 +666,14 @@ def c11(tier, seed):
                      "the directed-switch model is touched only by code running on the single stream under test"]
     profiles = [hammer("SUSPEND_BEFORE_BLOCKED", "SUSPEND_AFTER_BLOCKED", "RESUME_AFTER_PUSH", "PUSH_BEFORE_LOCK",
                        "POP_NONEMPTY_SEEN"), "uniform", "off", "heavy"]
-    for i, s in enumerate(seeds(seed, 5 if q else 40)):
-        args = ["--seed", s, "--mode", "susp", "--scenarios", 20 if q else 100, "--rounds", 300 if q else 3000,
+    for i, s in enumerate(seeds(seed, 5 if q else 24)):
+        args = ["--seed", s, "--mode", "susp", "--scenarios", 20 if q else 60, "--rounds", 300 if q else 1000,
                 "--delay", profiles[i % 4], "--watchdog", 90 if q else 900]
         if i % 3 == 2:
             args += ["--squeeze", 2]
         c.add(Run("h_units", "mon", args, weight=5, tag="susp%d" % i))
     for i, s in enumerate(seeds(seed, 3 if q else 24, salt=1)):
-        c.add(Run("h_units", "mon", ["--seed", s, "--mode", "direct", "--scenarios", 30 if q else 300, "--ops", 3000 if q else 20000,
+        c.add(Run("h_units", "mon", ["--seed", s, "--mode", "direct", "--scenarios", 30 if q else 150, "--ops", 3000 if q else 10000,
                                      "--delay", ["off", "uniform", "heavy"][i % 3], "--watchdog", 90 if q else 900], weight=2,
                   tag="direct%d" % i))
     for mode, args in (("susp", ["--scenarios", 6, "--rounds", 100]), ("direct", ["--scenarios", 10, "--ops", 1500])):
